@@ -328,7 +328,7 @@ func (d TTMLInDuration) duration() (o time.Duration) {
 	}
 	o = d.d
 	if d.frames > 0 && d.framerate > 0 {
-		o += time.Duration(float64(d.frames) / float64(d.framerate) * float64(time.Second.Nanoseconds()))
+		o += time.Duration(float64(d.frames) * float64(time.Second.Nanoseconds()) / float64(d.framerate))
 	}
 	return
 }
